@@ -144,7 +144,7 @@ package upstream
 //@   ensures err == nil ==> (forall i :: forall j :: 0 <= i && i < j && j < len(old(ul.Data)) && G_attempts(old(ul.Data)[j]) != old(G_attempts(ul.Data[j])) ==> !spec_sameref(old(ul.Data)[i], ul.connection))    :stops_at_the_first_success
 //@   ensures forall j :: 0 <= j && j < len(old(ul.Data)) ==> G_attempts(old(ul.Data)[j]) == old(G_attempts(ul.Data[j])) || G_attempts(old(ul.Data)[j]) == old(G_attempts(ul.Data[j])) + 1    :each_upstream_tried_at_most_once
 //@   ensures err == nil ==> ul.connection != nil && ul.session != nil                                :connected_with_a_session
-//@   ensures err == nil ==> memberUp(old(ul.Data), ul.connection)                                     :settles_on_a_listed_upstream
+//@   callsite creteSession#1 (a Upstream, iter int, rng []Upstream) require 0 <= iter && iter < len(rng) && rng[iter] == a && ul.connection == a && spec_sameslice(rng, old(ul.Data))     :settles_on_the_listed_upstream_just_tried
 //@   ensures err == nil && old(ul.MustSecure) ==> sessionOf(connOf(ul.connection)) != nil && sessionOf(connOf(ul.connection)).Secure()   :settled_upstream_meets_the_security_requirement
 //@   ensures err != nil ==> ul.connection == nil || ul.connection == old(ul.connection)               :no_connection_on_failure
 //@   loop 1 vars iter int, rng []Upstream
